@@ -9,8 +9,10 @@ Levels.
   (stack, name, version, flavor) ↦ (directory, table), global tags keyed by (stack, tag, name, flavor) ↦
   version.  It is what a fresh reader of the files sees (`Model/DbFile.lean` relates it to version files
   holding several flavors and to chain files).
-* `Eff` — the primitive effects of a command, in the order the code performs them: one constructor per
-  `Database` mutation, one per write-through on the in-memory stack, and `save` (persist the cache file).
+* `Eff` — the effects of a command, in the order the code performs them.  Every `Database` mutation in
+  `Eups.py` is followed by the same three steps — the mutation, its write-through on the in-memory
+  `ProductStack`, `save(flavor)` of that stack's cache file — so one constructor stands for the triple
+  (`Model/Cache.lean` applies the three parts in order and can stop after the first: a crash).
 * A command is a function `Proc → Outcome × Proc`; `Proc` carries the state the command started from and
   the trace of effects so far, the current database and in-memory view being *defined* as the replay of the
   trace.  A crashed command is a prefix of its trace (`Model/Cache.lean`).
@@ -79,6 +81,17 @@ def Spec.empty : Spec := ⟨[], []⟩
 structure DirEnt where
   dir : Dir
   tname : Name
+  deriving DecidableEq, Repr
+
+/-- A file saved in the "extra directory" of a declaration, `ups_db/<flavor>/<name>/<version>/<path>` of a stack
+(`declare(..., externalFileList=[...])`, `eups declare -L`); `content` identifies what was copied. -/
+structure Extra where
+  stack : Nat
+  flav : Flav
+  name : Name
+  ver : Ver
+  path : Str
+  content : Nat
   deriving DecidableEq, Repr
 
 /-! ## keys -/
@@ -189,47 +202,48 @@ def Spec.delDecl (c : Spec) (s : Nat) (n : Name) (v : Ver) (f : Flav) : Spec :=
 /-! ## effects -/
 
 inductive Eff
-  /-- `Database.declare(product)`: write the flavor's block of the version file, then assign `product.tags` -/
-  | dbDeclare (d : Decl) (tag : Option Tag)
-  /-- `Database.undeclare(product)`: unassign the tags found on it, remove the flavor's block -/
-  | dbUndeclare (s : Nat) (n : Name) (v : Ver) (f : Flav)
-  /-- `Database.assignTag(tag, name, version, flavor)` in the stack of the product -/
-  | dbAssign (s : Nat) (t : Tag) (n : Name) (f : Flav) (v : Ver)
-  /-- `Database.unassignTag(tag, name, flavor)` -/
-  | dbUnassign (s : Nat) (t : Tag) (n : Name) (f : Flav)
-  /-- `ProductStack.addProduct(product)` -/
-  | memAdd (d : Decl) (tag : Option Tag)
-  /-- `ProductStack.removeProduct(name, flavor, version)` -/
-  | memRemove (s : Nat) (n : Name) (v : Ver) (f : Flav)
-  /-- `ProductStack.assignTag(tag, name, version, flavor)` -/
-  | memAssign (s : Nat) (t : Tag) (n : Name) (f : Flav) (v : Ver)
-  /-- `ProductStack.unassignTag(tag, name, flavor)` -/
-  | memUnassign (s : Nat) (t : Tag) (n : Name) (f : Flav)
-  /-- `ProductStack.save(flavor)` of the stack's cache -/
-  | save (s : Nat) (f : Flav)
+  /-- `Database.declare(product)` (the flavor's block of the version file, then `product.tags`);
+  `ProductStack.addProduct(product)`; `save(flavor)` -/
+  | declare (d : Decl) (tag : Option Tag)
+  /-- `Database.undeclare(product)` (unassign the tags found on it, remove the flavor's block);
+  `ProductStack.removeProduct(name, flavor, version)`; `save(flavor)` -/
+  | undeclare (s : Nat) (n : Name) (v : Ver) (f : Flav)
+  /-- `Database.assignTag(tag, name, version, flavor)` in the stack of the product;
+  `ProductStack.assignTag(...)`; `save(flavor)` -/
+  | assign (s : Nat) (t : Tag) (n : Name) (f : Flav) (v : Ver)
+  /-- `Database.unassignTag(tag, name, flavor)`; `if ProductStack.unassignTag(...): save(flavor)` -/
+  | unassign (s : Nat) (t : Tag) (n : Name) (f : Flav)
   /-- `shutil.rmtree(product.dir)` (`Eups.remove`) -/
   | rmTree (d : Dir)
+  /-- `os.makedirs(dirName)` + `utils.copyfile(fileNameIn, pathOut)` into the extra directory (`Eups.declare`) -/
+  | copyExtra (x : Extra)
   deriving DecidableEq, Repr
 
+/-- the effect starts with a `Database` mutation (the points where a command can be killed "between the
+database update and the cache update") -/
 def Eff.isDb : Eff → Bool
-  | .dbDeclare .. | .dbUndeclare .. | .dbAssign .. | .dbUnassign .. => true
-  | _ => false
+  | .rmTree _ => false
+  | .copyExtra _ => false
+  | _ => true
 
 /-- `Database.assignTag` raises `ProductNotFound` unless the version file declares the flavor -/
 def Spec.assign (c : Spec) (s : Nat) (t : Tag) (n : Name) (f : Flav) (v : Ver) : Spec :=
   if c.hasDecl s n v f then c.setTag ⟨s, t, n, f, v⟩ else c
 
+/-- a declaration written together with its tag -/
+def Spec.addDecl (c : Spec) (d : Decl) (tag : Option Tag) : Spec :=
+  match tag with
+  | none => c.setDecl d
+  | some t => (c.setDecl d).setTag ⟨d.stack, t, d.name, d.flav, d.ver⟩
+
 /-- what an effect does to the database files (abstractly) -/
 def applyDb : Eff → Spec → Spec
-  | .dbDeclare d tag, c =>
-    let c1 := c.setDecl d
-    match tag with
-    | none => c1
-    | some t => c1.setTag ⟨d.stack, t, d.name, d.flav, d.ver⟩
-  | .dbUndeclare s n v f, c => c.delDecl s n v f
-  | .dbAssign s t n f v, c => c.assign s t n f v
-  | .dbUnassign s t n f, c => c.delTag s t n f
-  | _, c => c
+  | .declare d tag, c => c.addDecl d tag
+  | .undeclare s n v f, c => c.delDecl s n v f
+  | .assign s t n f v, c => c.assign s t n f v
+  | .unassign s t n f, c => c.delTag s t n f
+  | .rmTree _, c => c
+  | .copyExtra _, c => c
 
 /-- `ProductFamily.removeVersion` + `ProductStack.removeProduct`: drop the version and the tags naming it
 (`fixed`; the pinned code scanned `versions.items()` and dropped none — D1), then drop the family, tags
@@ -241,22 +255,29 @@ def memRemove (fixed : Bool) (m : Spec) (s : Nat) (n : Name) (v : Ver) (f : Flav
   if decls.any fun x => x.stack == s && x.name == n && x.flav == f then ⟨decls, tags⟩
   else ⟨decls, tags.filter fun x => !(x.stack == s && x.name == n && x.flav == f)⟩
 
-/-- what an effect does to the in-memory stacks of the process -/
+/-- the write-through of an effect on the in-memory stacks of the process -/
 def applyMemG (fixed : Bool) : Eff → Spec → Spec
-  | .memAdd d tag, m =>
-    let m1 := m.setDecl d
-    match tag with
-    | none => m1
-    | some t => m1.setTag ⟨d.stack, t, d.name, d.flav, d.ver⟩
-  | .memRemove s n v f, m => memRemove fixed m s n v f
-  | .memAssign s t n f v, m => m.assign s t n f v
-  | .memUnassign s t n f, m => m.delTag s t n f
-  | _, m => m
+  | .declare d tag, m => m.addDecl d tag
+  | .undeclare s n v f, m => memRemove fixed m s n v f
+  | .assign s t n f v, m => m.assign s t n f v
+  | .unassign s t n f, m => m.delTag s t n f
+  | .rmTree _, m => m
+  | .copyExtra _, m => m
 
 /-- the tree as it is: `ProductFamily.removeVersion` with the D1 repair -/
 def applyMem : Eff → Spec → Spec := applyMemG true
 /-- the pinned tree's write-through (kept for the witness of D1) -/
 def applyMemPinned : Eff → Spec → Spec := applyMemG false
+
+/-- the cache file the effect saves after its write-through, given the in-memory stacks *before* it
+(`unassignTag` saves only when the in-memory stack carried the tag) -/
+def Eff.saves (m : Spec) : Eff → Option (Nat × Flav)
+  | .declare d _ => some (d.stack, d.flav)
+  | .undeclare s _ _ f => some (s, f)
+  | .assign s _ _ f _ => some (s, f)
+  | .unassign s t n f => if m.hasTag s t n f then some (s, f) else none
+  | .rmTree _ => none
+  | .copyExtra _ => none
 
 /-! ## processes -/
 
@@ -274,6 +295,7 @@ structure Proc where
   mem0 : Spec
   dirs : List DirEnt
   tr : List Eff
+  extras : List Extra := []
   deriving Repr
 
 def Proc.db (p : Proc) : Spec := p.tr.foldl (fun c e => applyDb e c) p.db0
@@ -295,19 +317,13 @@ def assignTag (self : Flav) (t : Tag) (n : Name) (v : Ver) (stacks : List Nat) (
   | none => (.notFound, p)
   | some prod =>
     if !(p.db.hasDecl prod.stack n v self) then (.notFound, p) else
-    let p := p.emit (.dbAssign prod.stack t n self v)
-    let p := p.emit (.memAssign prod.stack t n self v)
-    (.ok, p.emit (.save prod.stack self))
+    (.ok, p.emit (.assign prod.stack t n self v))
 
 /-! ## `Eups.unassignTag` -/
 
 /-- the tail of `Eups.unassignTag` once the stack is known: the dry-run guard, the database, the cache -/
 def doUnassign (self : Flav) (t : Tag) (n : Name) (s : Nat) (noaction : Bool) (p : Proc) : Outcome × Proc :=
-  if noaction then (.ok, p) else
-  let p := p.emit (.dbUnassign s t n self)
-  if p.mem.hasTag s t n self then
-    (.ok, (p.emit (.memUnassign s t n self)).emit (.save s self))
-  else (.ok, p)
+  if noaction then (.ok, p) else (.ok, p.emit (.unassign s t n self))
 
 def unassignTag (nst : Nat) (self : Flav) (t : Tag) (n : Name) (v : Option Ver) (stack : Option Nat)
     (noaction : Bool) (p : Proc) : Outcome × Proc :=
@@ -340,6 +356,8 @@ structure DeclareArgs where
   tag : Option Tag
   force : Bool
   noaction : Bool
+  /-- externalFileList: (path below the extra directory, what is copied there) -/
+  ext : List (Str × Nat) := []
   deriving Repr
 
 /-- the "Delete all old occurrences of this tag" loop -/
@@ -360,12 +378,12 @@ inductive Redeclare
   | refuse
   deriving DecidableEq, Repr
 
-def redeclare (old : Option Decl) (d : Dir) (table : Table) (hasTag force : Bool) : Redeclare :=
+def redeclare (old : Option Decl) (d : Dir) (table : Table) (hasTag force : Bool) (extDiff : Bool := false) : Redeclare :=
   match old with
   | none => .write
   | some o =>
     if force then .write else
-    if o.dir != d || (table == .default && o.table == .none) then
+    if o.dir != d || (table == .default && o.table == .none) || extDiff then
       (if hasTag then .keep else .refuse)
     else .keep
 
@@ -382,8 +400,15 @@ def declareTag (nst : Nat) (a : DeclareArgs) (m : Spec) : Option Tag :=
   | some t => some t
   | none => if (findProducts m nst a.self a.name none (allStacks nst)).isEmpty then some current else none
 
-/-- argument resolution of `Eups.declare` (l.2326-2525); `none`: one of the `EupsException`s raised there -/
-def resolveDeclare (nst : Nat) (a : DeclareArgs) (p : Proc) : Option Resolved :=
+/-- the stack a declaration goes to: the one given, else the one holding the directory, else the first
+writable one (l.2381-2404) -/
+def targetOf (nst : Nat) (a : DeclareArgs) (d : Dir) : Nat :=
+  match a.stack with
+  | some s => s
+  | none => if d.root < nst then d.root else 0
+
+/-- directory and table of `Eups.declare` (l.2326-2525); `none`: one of the `EupsException`s raised there -/
+def resolveDirTable (nst : Nat) (a : DeclareArgs) (p : Proc) : Option (Dir × Table) :=
   let m := p.mem
   -- `if tag and (not productDir or not tablefile)`: look the product up, native flavor first
   let info : Option Decl :=
@@ -408,20 +433,32 @@ def resolveDeclare (nst : Nat) (a : DeclareArgs) (p : Proc) : Option Resolved :=
   | none => none                                    -- "Please specify a productDir"
   | some d =>
     if !(p.dirExists d) then none else              -- "is not a directory"
-    -- the stack: the one given, else the one holding the directory, else the first writable one
-    let target : Nat := match a.stack with
-      | some s => s
-      | none => if d.root < nst then d.root else 0
     if table == .default && !(p.tableExists d a.name) then none else   -- "tablefile does not exist"
-    some ⟨d, table, target⟩
+    some (d, table)
 
-/-- the part of `declare` that acts (l.2634-2702): the version record, then the tag -/
-def declareFinish (nst : Nat) (a : DeclareArgs) (r : Resolved) (tag : Option Tag) (rd : Redeclare) (p : Proc) :
+/-- argument resolution of `Eups.declare`: directory, table, stack -/
+def resolveDeclare (nst : Nat) (a : DeclareArgs) (p : Proc) : Option Resolved :=
+  (resolveDirTable nst a p).map fun dt => ⟨dt.1, dt.2, targetOf nst a dt.1⟩
+
+/-- "check external files" (l.2568-2588): the extra directory of the declaration exists and its content is not
+what the call lists — a file to add, a file with other content, a file that is not being replaced -/
+def extDiff (p : Proc) (a : DeclareArgs) (target : Nat) : Bool :=
+  let mine := p.extras.filter fun x => x.stack == target && x.flav == a.self && x.name == a.name && x.ver == a.ver
+  !mine.isEmpty &&
+    (a.ext.any (fun e => !(mine.any fun x => x.path == e.1 && x.content == e.2)) ||
+     mine.any (fun x => !(a.ext.any fun e => e.1 == x.path)))
+
+/-- "Save extra files in the extra directory" (l.2706-2722), past the dry-run guards -/
+def saveExtras (a : DeclareArgs) (target : Nat) : List (Str × Nat) → Proc → Proc
+  | [], p => p
+  | e :: es, p => saveExtras a target es (p.emit (.copyExtra ⟨target, a.self, a.name, a.ver, e.1, e.2⟩))
+
+/-- the version record, then the tag (l.2634-2702) -/
+def declareCore (nst : Nat) (a : DeclareArgs) (r : Resolved) (tag : Option Tag) (rd : Redeclare) (p : Proc) :
     Outcome × Proc :=
   let p1 : Proc :=
     if rd == .write && !a.noaction then
-      let dcl : Decl := ⟨r.target, a.name, a.ver, a.self, r.d, r.table⟩
-      ((p.emit (.dbDeclare dcl tag)).emit (.memAdd dcl tag)).emit (.save r.target a.self)
+      p.emit (.declare ⟨r.target, a.name, a.ver, a.self, r.d, r.table⟩ tag)
     else p
   match tag with
   | none => (.ok, p1)
@@ -429,12 +466,20 @@ def declareFinish (nst : Nat) (a : DeclareArgs) (r : Resolved) (tag : Option Tag
     if a.noaction then (.ok, p1) else
     assignTag a.self t a.name a.ver [r.target] (purgeAll nst a.self t a.name (allStacks nst) p1)
 
+/-- the part of `declare` that acts (l.2634-2724): the version record, the tag, then the extra files -/
+def declareFinish (nst : Nat) (a : DeclareArgs) (r : Resolved) (tag : Option Tag) (rd : Redeclare) (p : Proc) :
+    Outcome × Proc :=
+  match declareCore nst a r tag rd p with
+  | (.ok, p2) => if a.noaction then (.ok, p2) else (.ok, saveExtras a r.target a.ext p2)
+  | x => x
+
 def declare (nst : Nat) (a : DeclareArgs) (p : Proc) : Outcome × Proc :=
   match resolveDeclare nst a p with
   | none => (.refused, p)
   | some r =>
     let tag := declareTag nst a p.mem
-    match redeclare (p.mem.findDecl r.target a.name a.ver a.self) r.d r.table tag.isSome a.force with
+    match redeclare (p.mem.findDecl r.target a.name a.ver a.self) r.d r.table tag.isSome a.force
+        (extDiff p a r.target) with
     | .refuse => (.refused, p)                     -- "Redeclaring ...; specify force to proceed"
     | rd => declareFinish nst a r tag rd p
 
@@ -448,7 +493,18 @@ structure UndeclareArgs where
   tag : Option Tag
   versionAndTag : Bool        -- undeclareVersionAndTag
   noaction : Bool
+  force : Bool
+  /-- `SETUP_<NAME>` in the environment of the command: "name version -f flavor -Z stack" -/
+  setup : Option (Ver × Flav × Nat)
   deriving Repr
+
+/-- `Eups.isSetup(product)` for the product found in stack `s`: the environment says a version of the product
+is set up, that version is found (through the view) in the stack and flavor the environment names, and it is
+this stack and this version — whatever the flavor -/
+def isSetup (a : UndeclareArgs) (m : Spec) (s : Nat) (v : Ver) : Bool :=
+  match a.setup with
+  | none => false
+  | some (sv, sf, ss) => (m.findDecl ss a.name sv sf).isSome && ss == s && sv == v
 
 /-- `if not versionName`: the version is inferred when the listing of the product has one entry -/
 def inferVersion (nst : Nat) (a : UndeclareArgs) (ver : Option Ver) (m : Spec) : Except Outcome Ver :=
@@ -470,7 +526,7 @@ def untagFirst (nst : Nat) (a : UndeclareArgs) (v : Ver) (s : Nat) (p : Proc) : 
 def removeVersion (a : UndeclareArgs) (v : Ver) (s : Nat) (p : Proc) : Outcome × Proc :=
   if a.noaction then (.ok, p) else
   if !(p.db.hasDecl s a.name v a.self) then (.notFound, p) else   -- `Database.undeclare` found nothing
-  (.ok, ((p.emit (.dbUndeclare s a.name v a.self)).emit (.memRemove s a.name v a.self)).emit (.save s a.self))
+  (.ok, p.emit (.undeclare s a.name v a.self))
 
 /-- the part of `Eups.undeclare` after the tag-only exit -/
 def undeclareVersion (nst : Nat) (a : UndeclareArgs) (ver : Option Ver) (p : Proc) : Outcome × Proc :=
@@ -479,7 +535,9 @@ def undeclareVersion (nst : Nat) (a : UndeclareArgs) (ver : Option Ver) (p : Pro
   | .ok v =>
     match p.mem.findIn (stacksOf nst a.stack) a.name v a.self with
     | none => (.notFound, p)
-    | some prod => removeVersion a v prod.stack (untagFirst nst a v prod.stack p)
+    | some prod =>
+      if isSetup a p.mem prod.stack v && !a.force then (.refused, p) else   -- "is already setup; specify force"
+      removeVersion a v prod.stack (untagFirst nst a v prod.stack p)
 
 def undeclare (nst : Nat) (a : UndeclareArgs) (p : Proc) : Outcome × Proc :=
   match a.tag with
@@ -501,14 +559,14 @@ def undeclare (nst : Nat) (a : UndeclareArgs) (p : Proc) : Outcome × Proc :=
 (native flavor, whole path), `undeclare(name, version)` undeclares it, then the directory goes — or, in a
 dry run, "rm -rf" is printed.  (The recursive collection and the in-use check are C14's `Remove` model; this
 is its per-product step.) -/
-def remove (nst : Nat) (self : Flav) (n : Name) (v : Ver) (recursive noaction : Bool) (p : Proc) :
-    Outcome × Proc :=
+def remove (nst : Nat) (self : Flav) (n : Name) (v : Ver) (recursive noaction force : Bool)
+    (setup : Option (Ver × Flav × Nat)) (p : Proc) : Outcome × Proc :=
   match p.mem.findIn (allStacks nst) n v self with
   | none => (.notFound, p)
   | some prod =>
     -- `recursive`: `_remove` reads `product.getTable()` (the universes' tables declare no dependencies)
     if recursive && prod.table == .default && !(p.tableExists prod.dir n) then (.tableMissing, p) else
-    match undeclare nst ⟨self, n, some v, none, none, false, noaction⟩ p with
+    match undeclare nst ⟨self, n, some v, none, none, false, noaction, force, setup⟩ p with
     | (.ok, p1) =>
       if noaction then (.ok, p1) else
       if p.dirExists prod.dir then (.ok, p1.emit (.rmTree prod.dir)) else (.failed, p1)   -- `rmtree` raised
@@ -521,7 +579,7 @@ inductive Cmd
   | undeclare (a : UndeclareArgs)
   | assignTag (self : Flav) (t : Tag) (n : Name) (v : Ver) (stack : Option Nat)
   | unassignTag (self : Flav) (t : Tag) (n : Name) (v : Option Ver) (stack : Option Nat) (noaction : Bool)
-  | remove (self : Flav) (n : Name) (v : Ver) (recursive noaction : Bool)
+  | remove (self : Flav) (n : Name) (v : Ver) (recursive noaction force : Bool) (setup : Option (Ver × Flav × Nat))
   | query (self : Flav)
   deriving Repr
 
@@ -539,7 +597,7 @@ def Cmd.noaction : Cmd → Bool
   | .undeclare a => a.noaction
   | .assignTag .. => false
   | .unassignTag _ _ _ _ _ na => na
-  | .remove _ _ _ _ na => na
+  | .remove _ _ _ _ na _ _ => na
   | .query _ => true
 
 def run (nst : Nat) (c : Cmd) (p : Proc) : Outcome × Proc :=
@@ -548,7 +606,81 @@ def run (nst : Nat) (c : Cmd) (p : Proc) : Outcome × Proc :=
   | .undeclare a => undeclare nst a p
   | .assignTag f t n v st => assignTag f t n v (stacksOf nst st) p
   | .unassignTag f t n v st na => unassignTag nst f t n v st na p
-  | .remove f n v rc na => remove nst f n v rc na p
+  | .remove f n v rc na fo su => remove nst f n v rc na fo su p
   | .query _ => (.ok, p)
+
+/-! ## what a dry run says it would do -/
+
+/-- the messages a command prints under `noaction` (l.2634-2650, 2682-2684, 2236, 2813-2815, 3291) -/
+inductive Msg
+  | declaring (s : Nat) (tag : Option Tag)   -- "Declaring directory ... as n v [tag] in <stack>"
+  | assigning (t : Tag)                      -- "Assigning tag "t" to n v"
+  | untag (t : Tag)                          -- "eups undeclare --tag t n"
+  | removing (v : Ver) (s : Nat)             -- "Removing n v from version list for <stack>"
+  | rmrf (d : Dir)                           -- "rm -rf <dir>"
+  | copy (path : Str)                        -- "cp <file> <extra directory>/<path>"
+  deriving DecidableEq, Repr
+
+/-- does `unassignTag` get as far as its dry-run message -/
+def saysUntag (nst : Nat) (self : Flav) (t : Tag) (n : Name) (v : Option Ver) (stack : Option Nat) (m : Spec) : Bool :=
+  match v with
+  | some v =>
+    match m.findIn (stacksOf nst stack) n v self with
+    | none => false
+    | some prod => (m.tagsOf prod).contains t
+  | none =>
+    match stack with
+    | some _ => true
+    | none => (m.findTagged (allStacks nst) n t self).isSome
+
+def sayUndeclareVersion (nst : Nat) (a : UndeclareArgs) (ver : Option Ver) (m : Spec) : List Msg × Option Decl :=
+  match inferVersion nst a ver m with
+  | .error _ => ([], none)
+  | .ok v =>
+    match m.findIn (stacksOf nst a.stack) a.name v a.self with
+    | none => ([], none)
+    | some prod =>
+      if isSetup a m prod.stack v && !a.force then ([], none) else
+      ((match a.tag with
+        | some t => if saysUntag nst a.self t a.name (some v) (some prod.stack) m then [.untag t] else []
+        | none => []) ++ [.removing v prod.stack], some prod)
+
+/-- what the command, run with `noaction`, reports (`Eups(noaction=True)` prints it and changes nothing) -/
+def wouldDo (nst : Nat) (c : Cmd) (p : Proc) : List Msg :=
+  let m := p.mem
+  match c with
+  | .declare a =>
+    match resolveDeclare nst a p with
+    | none => []
+    | some r =>
+      let tag := declareTag nst a m
+      match redeclare (m.findDecl r.target a.name a.ver a.self) r.d r.table tag.isSome a.force
+          (extDiff p a r.target) with
+      | .refuse => []
+      | rd => (if rd == .write then [.declaring r.target tag] else []) ++
+              (match tag with | some t => [.assigning t] | none => []) ++ a.ext.map (fun e => .copy e.1)
+  | .undeclare a =>
+    match a.tag with
+    | none => (sayUndeclareVersion nst a a.ver m).1
+    | some t =>
+      if a.versionAndTag then
+        let ver : Option Ver := match a.ver with
+          | some v => some v
+          | none =>
+            match findProducts m nst a.self a.name (some t) (stacksOf nst a.stack) with
+            | [d] => some d.ver
+            | _ => none
+        (sayUndeclareVersion nst a ver m).1
+      else if saysUntag nst a.self t a.name a.ver a.stack m then [.untag t] else []
+  | .unassignTag f t n v st _ => if saysUntag nst f t n v st m then [.untag t] else []
+  | .remove f n v rc _ fo su =>
+    match m.findIn (allStacks nst) n v f with
+    | none => []
+    | some prod =>
+      if rc && prod.table == .default && !(p.tableExists prod.dir n) then [] else
+      match sayUndeclareVersion nst ⟨f, n, some v, none, none, false, true, fo, su⟩ (some v) m with
+      | (msgs, some _) => msgs ++ [.rmrf prod.dir]
+      | (msgs, none) => msgs
+  | _ => []
 
 end EupsModel.Db
